@@ -7,6 +7,7 @@ pub const PRELUDE: &str = include_str!("../prelude.js");
 pub mod c01;
 pub mod c02;
 pub mod c03;
+pub mod c07;
 pub mod c09;
 pub mod c11;
 pub mod c12;
@@ -22,6 +23,7 @@ pub fn lookup(id: &str) -> Option<Box<dyn Check>> {
         "C01" => Some(Box::new(c01::C01)),
         "C02" => Some(Box::new(c02::C02)),
         "C03" => Some(Box::new(c03::C03)),
+        "C07" => Some(Box::new(c07::C07)),
         "C09" => Some(Box::new(c09::C09)),
         "C11" => Some(Box::new(c11::C11)),
         "C12" => Some(Box::new(c12::C12)),
